@@ -179,6 +179,11 @@ def length_variants(rng, L, unit_bits):
                      ((ir.Comparison("FLAG", "ON"),), L + 24)))
     out.append((lk2, {"FLAG": ("str", "ON", 1), "TEMP": ("float", 98.6, 37)}))
     out.append((lk2, {"FLAG": ("str", "ON", 2), "TEMP": ("float", 0.5, 39)}))
+    # an entry applies only if ALL its comparisons hold: the first entry's first comparison holds, a later one does not
+    lk3 = ir.Lookup((((ir.Comparison("FLAG", "1", ">=", False), ir.Comparison("TEMP", "40", "<", False)), L + 8),
+                     ((ir.Comparison("MODE", "3"), ir.Comparison("MODE", "2", ">="), ir.Comparison("FLAG", "OFF")), L + 16),
+                     ((ir.Comparison("FLAG", "ON"),), L)))
+    out.append((lk3, {"FLAG": ("str", "ON", 1), "TEMP": ("float", 98.6, 45), "MODE": ("int", 3, 3)}))
     return out
 
 
